@@ -11,7 +11,8 @@ from .common import bump
 ID = "C18"
 AREA = "c18"
 LEAN_PROPS = "Litep2pVerif.Props.C18"
-THEOREMS = ["derive_rule", "derive_eq_reference", "ed25519_id_form", "print_parse", "parse_print_partial",
+THEOREMS = ["key_bytes_roundtrip", "keypair_parse_sound", "key_length_rules", "verify_total",
+            "derive_rule", "derive_eq_reference", "ed25519_id_form", "print_parse", "parse_print_partial",
             "parse_print_witness", "base58_roundtrip", "text_roundtrip", "serde_roundtrip", "accepts_eq_reference",
             "into_multiaddr_total", "multiaddr_roundtrip", "parse_total"]
 CONSTS = ["MAX_INLINE_KEY_LENGTH"]
@@ -24,11 +25,17 @@ MANIFEST = {
             "of libp2p-identity's PeerId (the reference, = multiaddr::PeerId) and bs58's encode/decode loops: derivation rule, "
             "ed25519 id form, print/parse and (partial, with witness) parse/print canonicity, base58 and text/serde round trips, "
             "acceptance equal to the reference, the infallible conversion into multiaddr::PeerId never panics, total parsers. "
-            "Every run ties the models to the code three ways (model / litep2p / libp2p-identity) on structured inputs.",
+            "Every run ties the models to the code three ways (model / litep2p / libp2p-identity) on structured inputs. "
+            "Coverage round: the ed25519 key material of src/crypto/ed25519.rs and crypto/mod.rs — Keypair/SecretKey/PublicKey "
+            "byte forms (length rules, zeroing of the caller's buffer on success only, consistency of the two keypair halves), "
+            "verify on malformed signatures, protobuf key blobs through both PublicKey and RemotePublicKey, and the remaining "
+            "PeerId conversions (TryFrom<Vec<u8>>, TryFrom<Multihash>, Into<Multihash>) — with the curve arithmetic as a "
+            "parameter (key_bytes_roundtrip, keypair_parse_sound, key_length_rules, verify_total), compared three ways.",
     "note": "Trusted: Lean kernel; axioms propext/Classical.choice/Quot.sound; the hand-written models and their tie (sampled "
             "differential runs through adapter src/verif/c18.rs and harness/src/local/c18ref.rs); SHA-256 is a parameter of the "
             "model (32-byte output assumed), computed by Python hashlib in the run; ed25519 point validity is taken from the "
-            "implementation; multiaddr text/binary framing is compared, not modelled. parse_print is partial: unsigned-varint "
+            "implementation; for the key operations the curve facts (public key derived from a seed, point validity, signature "
+            "validity) come from libp2p-identity/ed25519-dalek on the reference side and test vectors computed once with it; multiaddr text/binary framing is compared, not modelled. parse_print is partial: unsigned-varint "
             "drops the high bits of a 10-byte varint, so non-canonical encodings are accepted (known finding c18-varint-trunc).",
     "technique": "Lean 4 proof (structural induction over the decode loops, positional-numeral uniqueness for base58) + "
                  "three-way model/implementation/reference correspondence check",
@@ -38,7 +45,9 @@ RULE = ("seeded inputs: multihash byte strings of codes 0x00/0x12/0x11/0x13/0x16
         "(boundaries 32/42/43/64/65), non-minimal, truncating and overflowing varints, trailing bytes, truncations, random "
         "bytes; key blobs of 0..100 bytes and ed25519 keys; base58 strings (valid ids, leading '1's, invalid and non-ASCII "
         "characters, long strings); each through from_bytes, from_str, multiaddr, serde on litep2p, libp2p-identity and the "
-        "model; a case is non-trivial if it has accepted and rejected inputs; distinct = distinct transcripts by SHA-256")
+        "model; keypair buffers (valid, halves of different keys, flipped bits, invalid points, lengths 0..72), secret/public "
+        "keys of every nearby length, protobuf key blobs (other types, wrong length prefixes, swapped/missing/repeated/unknown "
+        "fields, truncations), signatures (valid, flipped, wrong key/message, lengths 0..128, all-zero/all-ff) and conv; a case is non-trivial if it has accepted and rejected inputs; distinct = distinct transcripts by SHA-256")
 TRUSTED_BASE = ["Lean 4.33 kernel", "axioms: propext, Classical.choice, Quot.sound only",
                 "hand-written models Model/Id/*.lean tied to peer_id.rs, unsigned-varint, multihash, bs58 and libp2p-identity "
                 "by this three-way correspondence run",
@@ -46,8 +55,12 @@ TRUSTED_BASE = ["Lean 4.33 kernel", "axioms: propext, Classical.choice, Quot.sou
                 "SHA-256 is a parameter of the model; values come from Python hashlib (h=…) and are compared with the real code",
                 "ed25519 point validity (valid=…) and applicability of the reference to a key blob (ref=…) are taken from the "
                 "implementation's answers (checker mode)",
-                "multiaddr's text/binary component framing and serde data formats are exercised (round trips), not modelled"]
-ASSUMPTIONS = ["hash output is 32 bytes (SHA-256)", "usize is 64 bits", "strings handed to from_str are valid UTF-8 (Rust &str)"]
+                "multiaddr's text/binary component framing and serde data formats are exercised (round trips), not modelled",
+                "ed25519-dalek's curve arithmetic is the parameter `Curve` of Model/Id/Keys.lean; its values come from the "
+                "reference side (derive=/valid=/sigok=/sig=) and the embedded test vectors KEYS/SIGS of checks/c18.py; "
+                "libp2p-identity's protobuf key decoding is compared only where both sides accept"]
+ASSUMPTIONS = ["hash output is 32 bytes (SHA-256)", "usize is 64 bits", "strings handed to from_str are valid UTF-8 (Rust &str)",
+               "a signature made by ed25519-dalek verifies under the matching key (edsign … v=1 is echoed, not derived)"]
 KEEP_PREFIX = 0
 
 ALPHA = "123456789ABCDEFGHJKLMNPQRSTUVWXYZabcdefghijkmnopqrstuvwxyz"
@@ -276,6 +289,124 @@ def gen_case(rng, n_ops):
     return ops
 
 
+# ------------------------------------------------------------------ ed25519 key material (coverage round)
+# (secret seed, public key) pairs and signatures computed once with ed25519-dalek through the harness
+KEYS = [('ebfa4601b9f6b6d3373d231317e46cb9542e4b78e0459245c3ead8b59b31837f', 'bdb7d852db2ca3d361ec90c623d20ef90cdc05afdfeb934d234a0d4641752325'),
+        ('56045463bc746fd6edbca6f9b894dccc22e21b3ece9b988ad8f54584608cc3be', '6caf91595f2ab7cc9eb619dd3c6bdfb1352f97acd6da5b0b314e6548cf80bb5a'),
+        ('94193baf40a2f6e3cef7e5c883f9916c40d851e7d4a40dffaaa883cb536efed4', '57da48f93723a6d5f9eb82b7371b6243d411adfeb7f8ff5153878bdcf0180b37'),
+        ('99f8a15b8a566c6d6f3b70846b87eca7eb9035ee910b6ce6c7f79f243185a4ac', 'c85e0ca129739b72db22896aa018523bf30d299453efad3445514e4885f62869'),
+        ('ee8cc77b923b0e28e05a3aac0eb267bb97d83895f27ee2d423302e3819f54431', '3c5e5a4c57287bc1814728bb0940d4fe471dac94169a011418c67d7ae27fa9fb'),
+        ('78360a2441f364fc896041facb21a8ac41164df8d1dbbd2c8c51b4d70c76b72d', '0b5dbaeda782126735822209bec8154aa73e25307e3922864bae6e37cfee1b45'),
+        ('78bdedeee33063c033e8d2135f8c808d2323ba8414be023328b8f9a7e73409df', 'ed36e508c2e8a456887b7092c1ede8ee859d92a4cfe4f80fb9634898516e4144'),
+        ('6ab974cf7361cc9070cba974d585e2a2858a39728843fd52fe46b6fa97bc224c', '3c639e7448c6087417ef2ac6fbbeff5f0f6393b8997358295f05dd63687f5930')]
+_NOISE = '6e6f6973652d6c69627032702d7374617469632d6b65793a000102030405060708090a0b0c0d0e0f101112131415161718191a1b1c1d1e1f'
+SIGS = [(0, '', 'd44bacc92ec475d8a36ace8ef5ce64f3dccf9b7ee1b48d6b2533eca29ecbef8ee1c4aaccfac3605f4d1322e8bd624a4e84cf72c0a6c959859264a4d7d32e500f'),
+        (0, _NOISE, '74471ab2609734c7dbf16e1714c4b2339505ff1ce1721f21e1ff1bc08e9b9948b93e28867d5e692c3d7048718202ae4e395e2a6b1b05bd4cae136dfca7d6500e'),
+        (0, '616263', 'ab3f68a8d484dd749b7872dd82c4c362b190ded1c7fdcbbf135d36315e22c2ce43f40e968f272a7f7aab4e9586d09f0ece20500b22956b1e07b131497fc7940a'),
+        (1, '', '158fcff3c1a68548a91cac5f5f117b7abcb64815631d698d74ca0843ce00420f3fae9d2cd5ef1aad70929a9560e1ec3625ad03a25d2e7af8b1328a519660cf00'),
+        (1, _NOISE, '153b80e507a4c47dddc35968f14ecb1de7e4d89237dce1d9fd7b391a967da24b634488715e6161a9c35806611e1ce6e1d49f2a9c70dfe391e47d7544963ed90a'),
+        (1, '616263', '0ca5a4eabcb761aae97f31eca7b7453dfce9f2f06c1a8b602041f3e92d51dc8345662031bf84bc4d94ac520ba4f7188dcc1027be12fafad1c60612f51d63d204'),
+        (2, '', '8bc96297390f0eb5294f62449ba3707c308f0d6af836d3f6b827ad31e04d9cb347203bda28e3cb7e868966cee6c43006456fecef71f4ccec172c44c497fcfc08'),
+        (2, _NOISE, 'c80c324c31197126fd8d47d68979836bf352323220cc0f9eba10c543fd9e01ab71275998c9c975b9d85856ece9cce8980fa265b2704b22b6a5f8d0490ae0eb03'),
+        (2, '616263', '56bcddf2ade670cca42897737de897f14a4a302f9ca7e5fb48e76471e21c39f591ae6f12aee24b40c4ad4deae88e2932b0668e5d1272afba33b00498ddd98a02'),
+        (3, '', '5456dd444b7bf673f025de5d04fa703a205c7b5ea2a355b5c32d37a57745b3f997192033ec84e33cb6097f7faf9df7d05593937de57f66a1edb0ee953df09b0e'),
+        (3, _NOISE, '2059990973ac0873fcf0ffc2a20bed9f1f4222e2e4970df47c8a8e126b6458b7e170b06f2d17344307d958f1e77ad3c04208fa1a3246905b6679886f885f7402'),
+        (3, '616263', '0246a43644ec0224e1a1e19d01216eeda904e5a1802036bc4a70babf2e0b9bc40d11437fd1bb25d6913feb3771d6ca699492864959c23977776593d627585d06')]
+# a 32-byte string that is not a curve point (y = 2 has no x), and small-order / non-canonical encodings
+BAD_POINTS = ["0200000000000000000000000000000000000000000000000000000000000000",
+              "ffffffffffffffffffffffffffffffffffffffffffffffffffffffffffffffff"]
+
+
+def flip(b, rng):
+    b = bytearray(b)
+    if b:
+        k = rng.randrange(len(b))
+        b[k] ^= 1 << rng.randrange(8)
+    return bytes(b)
+
+
+def gen_keys(rng, n_ops):
+    """Keypair / secret key / public key byte forms, protobuf key blobs, signature verification with malformed
+    signatures, and the remaining PeerId conversions."""
+    ops = []
+    for _ in range(n_ops):
+        sk, pk = (bytes.fromhex(x) for x in rng.choice(KEYS))
+        r = rng.random()
+        if r < 0.22:
+            q = rng.random()
+            if q < 0.35:
+                buf = sk + pk
+            elif q < 0.5:
+                buf = sk + bytes.fromhex(rng.choice(KEYS)[1])                # public half of another key
+            elif q < 0.6:
+                buf = flip(sk + pk, rng)
+            elif q < 0.7:
+                buf = sk + bytes.fromhex(rng.choice(BAD_POINTS))
+            elif q < 0.85:
+                buf = (sk + pk + rbytes(rng, 8))[:rng.choice([0, 1, 31, 32, 33, 63, 65, 72])]
+            else:
+                buf = rbytes(rng, 64)
+            ops.append("kpbytes " + hb(buf))
+        elif r < 0.34:
+            n = rng.choice([32] * 6 + [0, 1, 31, 33, 64])
+            ops.append("skbytes " + hb((sk + rbytes(rng, 32))[:n]))
+        elif r < 0.44:
+            q = rng.random()
+            k = pk if q < 0.5 else bytes.fromhex(rng.choice(BAD_POINTS)) if q < 0.6 else rbytes(rng, 32) if q < 0.75 else \
+                (pk + pk)[:rng.choice([0, 31, 33, 64])]
+            ops.append("pkbytes " + hb(k))
+        elif r < 0.60:
+            q = rng.random()
+            canon = bytes([8, 1, 0x12, 0x20]) + pk
+            if q < 0.3:
+                blob = canon
+            elif q < 0.4:
+                blob = bytes([8, rng.choice([0, 2, 3, 4, 0x7f]), 0x12, 0x20]) + pk       # other key types
+            elif q < 0.5:
+                blob = bytes([8, 1, 0x12, rng.choice([0x1f, 0x21, 0])]) + pk             # wrong length prefix
+            elif q < 0.58:
+                blob = bytes([0x12, 0x20]) + pk + bytes([8, 1])                          # fields swapped
+            elif q < 0.66:
+                blob = bytes([0x12, 0x20]) + pk                                          # type missing
+            elif q < 0.72:
+                blob = canon + bytes([0x18, 5])                                          # unknown field
+            elif q < 0.78:
+                blob = bytes([8, 0]) + canon                                             # type repeated: last wins
+            elif q < 0.84:
+                blob = bytes([8, 1, 0x12, 0x20]) + bytes.fromhex(rng.choice(BAD_POINTS))
+            elif q < 0.92:
+                blob = flip(canon, rng)
+            else:
+                blob = canon[:rng.randrange(0, len(canon))]
+            ops.append("pkproto " + hb(blob))
+        elif r < 0.82:
+            i, msg, sig = rng.choice(SIGS)
+            key = bytes.fromhex(KEYS[i][1])
+            msg, sig = bytes.fromhex(msg), bytes.fromhex(sig)
+            q = rng.random()
+            if q < 0.3:
+                pass
+            elif q < 0.42:
+                sig = flip(sig, rng)
+            elif q < 0.52:
+                msg = flip(msg, rng) if msg else b"x"
+            elif q < 0.6:
+                key = bytes.fromhex(rng.choice(KEYS)[1])
+            elif q < 0.85:
+                sig = (sig + sig)[:rng.choice([0, 1, 32, 63, 65, 96, 128])]             # malformed lengths
+            elif q < 0.92:
+                sig = bytes(64) if rng.random() < 0.5 else b"\xff" * 64
+            else:
+                key = bytes.fromhex(rng.choice(BAD_POINTS)) if rng.random() < 0.5 else key[:31]
+            ops.append(f"edverify {hb(key)} {hb(msg)} {hb(sig)}")
+        elif r < 0.88:
+            n = rng.choice([32] * 5 + [31, 33, 0])
+            ops.append(f"edsign {hb((sk + sk)[:n])} {hb(rbytes(rng, rng.choice([0, 3, 56])))}")
+        else:
+            ops.append("conv " + hb(gen_multihash(rng)))
+    return ops
+
+
 def grid_cases(codes, lens, chunk=200):
     """Every (code, digest length) header pair, digest bytes fixed."""
     ops = []
@@ -312,6 +443,15 @@ def corpus():
          "edid " + hb(bytes(32)), "edid 0x3b6a27bcceb6a42d62a3a8d02a6f0d73653215771de243a63ac048a18b59da29",
          "b58dec " + hx("11Ldp"), "b58dec " + hx("1O"), "b58dec " + hx("1é"), "b58enc 0x0000010203ff", "b58enc 0x"],
     ]
+    k0s, k0p = (bytes.fromhex(x) for x in KEYS[0])
+    sig0 = bytes.fromhex(SIGS[0][2])
+    c.append(["kpbytes " + hb(k0s + k0p), "kpbytes " + hb(k0s + bytes.fromhex(KEYS[1][1])), "kpbytes " + hb(k0s + k0p[:31]),
+              "kpbytes " + hb(k0s + k0p + b"\0"), "kpbytes 0x", "skbytes " + hb(k0s), "skbytes " + hb(k0s[:31]), "skbytes " + hb(k0s + b"\0"),
+              "pkbytes " + hb(k0p), "pkbytes " + hb(k0p[:31]), "pkbytes 0x" + BAD_POINTS[0],
+              "pkproto " + hb(bytes([8, 1, 0x12, 0x20]) + k0p), "pkproto " + hb(bytes([8, 0, 0x12, 0x20]) + k0p), "pkproto 0x0801", "pkproto 0x",
+              f"edverify {hb(k0p)} 0x {hb(sig0)}", f"edverify {hb(k0p)} 0x {hb(sig0[:63])}", f"edverify {hb(k0p)} 0x {hb(sig0 + b'x')}",
+              f"edverify {hb(k0p)} 0x 0x", f"edverify {hb(k0p)} 0x61 {hb(sig0)}", f"edsign {hb(k0s)} 0x616263",
+              "conv " + hb(mh(0x12, bytes(32))), "conv " + hb(mh(0x13, bytes(32))), "conv 0x"])
     return c
 
 
@@ -319,6 +459,8 @@ def gen_cases(rng, tier):
     n = {"quick": 260, "thorough": 42000, "search": 1500}[tier]
     for _ in range(n):
         yield gen_case(rng, rng.choice([10, 20, 30]))
+    for _ in range({"quick": 80, "thorough": 6000, "search": 400}[tier]):
+        yield gen_keys(rng, rng.choice([10, 20, 30]))
     if tier == "quick":
         yield from grid_cases([0, 0x12, 0x11, 0x13, 0x16, 0xb220, 0x80, 0x1200], range(0, 71))
     elif tier == "search":
@@ -351,6 +493,14 @@ def model_lines(case, impl):
             op += " valid=" + ("0" if a == "err badkey" and b == "err badkey" else "1")
         elif op.startswith("frompk "):
             op += " ref=" + ("0" if b == "-" else "1")
+        elif op.split() and op.split()[0] in ("kpbytes", "skbytes", "pkbytes") and o.count(" | ") == 2:
+            op += " " + o.split(" | ")[2]                      # the curve library's facts (reference side)
+        elif op.startswith("pkproto ") and b is not None:
+            op += " valid=" + ("0" if a == "err badkey" else "1") + " ref=" + b.replace(" ", ":")
+        elif op.startswith("edverify ") and b is not None:
+            op += " valid=" + ("0" if b == "err badkey" else "1") + " sigok=" + ("1" if b == "true" else "0")
+        elif op.startswith("edsign ") and b is not None and b.startswith("ok "):
+            op += " sig=" + b.split()[1]
         res.append(op)
     return res
 
@@ -359,6 +509,48 @@ def model_lines(case, impl):
 
 def arg_bytes(t, i=1):
     return bytes.fromhex(t[i][2:]) if len(t) > i and t[i].startswith("0x") else b""
+
+
+def pb_fields(blob):
+    """Minimal protobuf reader: {field number: last value} (varints as int, length-delimited as bytes); None if
+    malformed."""
+    res, i = {}, 0
+    try:
+        while i < len(blob):
+            key, sh = 0, 0
+            while True:
+                c = blob[i]; i += 1
+                key |= (c & 0x7f) << sh; sh += 7
+                if c < 0x80:
+                    break
+            fn, wt = key >> 3, key & 7
+            if wt == 0:
+                val, sh = 0, 0
+                while True:
+                    c = blob[i]; i += 1
+                    val |= (c & 0x7f) << sh; sh += 7
+                    if c < 0x80:
+                        break
+                res[fn] = val
+            elif wt == 2:
+                n, sh = 0, 0
+                while True:
+                    c = blob[i]; i += 1
+                    n |= (c & 0x7f) << sh; sh += 7
+                    if c < 0x80:
+                        break
+                if i + n > len(blob):
+                    return None
+                res[fn] = blob[i:i + n]; i += n
+            elif wt == 1:
+                i += 8
+            elif wt == 5:
+                i += 4
+            else:
+                return None
+        return res if i == len(blob) else None
+    except IndexError:
+        return None
 
 
 def oracle(case, out):
@@ -421,6 +613,79 @@ def oracle(case, out):
                     v("ed25519-form", f"ed25519 peer id {a!r} is not 00 24 08 01 12 20 ‖ key", i)
                 if not a.startswith("ok ") and a != "err badkey":
                     v("error-class", f"edid answered {a!r}", i)
+            elif t[0] in ("kpbytes", "skbytes", "pkbytes"):
+                buf = arg_bytes(t)
+                parts = o.split(" | ")
+                a, b = parts[0], parts[1] if len(parts) > 1 else None
+                facts = dict(x.split("=", 1) for x in (parts[2].split() if len(parts) > 2 else []))
+                if b is not None and a != b:
+                    v("key-reference", f"{t[0]}: litep2p {a!r}, libp2p-identity {b!r}", i)
+                f = dict(x.split("=", 1) for x in a.split()[1:] if "=" in x)
+                if t[0] == "kpbytes":
+                    good = len(buf) == 64 and facts.get("valid") == "1" and facts.get("derive") == buf[32:].hex()
+                    if a.startswith("ok "):
+                        if not good:
+                            v("key-accept", f"keypair of {len(buf)} bytes accepted although the halves do not form a valid pair", i)
+                        if f.get("pub") != buf[32:].hex() or f.get("sec") != buf[:32].hex() or f.get("rt") != "1":
+                            v("key-roundtrip", f"parsed keypair does not print back to its bytes: {a!r}", i)
+                        if f.get("zeroed") != "1":
+                            v("key-not-wiped", "the input buffer was not zeroed on success", i)
+                        if f.get("c") != "1":
+                            v("key-inconsistent", f"secret()/From conversions disagree: {a!r}", i)
+                    else:
+                        if good:
+                            v("key-refused", "a valid 64-byte keypair was refused", i)
+                        if f.get("kept") != "1":
+                            v("key-buffer", "the input buffer of a refused keypair was modified", i)
+                elif t[0] == "skbytes":
+                    if a.startswith("ok ") != (len(buf) == 32):
+                        v("key-length", f"secret key of {len(buf)} bytes: {a!r}", i)
+                    if a.startswith("ok "):
+                        if f.get("sec") != buf.hex() or f.get("zeroed") != "1":
+                            v("key-roundtrip", f"secret key {a!r}", i)
+                        if facts.get("derive") not in (None, "-") and f.get("pub") != facts["derive"]:
+                            v("key-derive", f"public key of the secret differs from the curve library's: {a!r}", i)
+                    elif f.get("kept") != "1":
+                        v("key-buffer", "the input buffer of a refused secret key was modified", i)
+                else:
+                    good = len(buf) == 32 and facts.get("valid") == "1"
+                    if a.startswith("ok ") != good:
+                        v("key-accept" if a.startswith("ok ") else "key-refused", f"public key of {len(buf)} bytes (valid point: {facts.get('valid')}): {a!r}", i)
+                    if a.startswith("ok ") and a != f"ok {buf.hex()} c=1":
+                        v("key-roundtrip", f"public key {a!r}", i)
+            elif t[0] == "pkproto":
+                blob = arg_bytes(t)
+                if a.startswith("err inconsistent"):
+                    v("key-inconsistent", f"PublicKey and RemotePublicKey decode the same blob differently: {a!r}", i)
+                if a.startswith("ok "):
+                    K = bytes.fromhex(a[3:])
+                    fields = pb_fields(blob)
+                    if len(K) != 32 or fields is None or fields.get(1) != 1 or fields.get(2) != K:
+                        v("key-accept", f"key blob {blob.hex()} decoded to {a!r}", i)
+                    if b is not None and b.startswith("ok ") and a != b:
+                        v("key-reference", f"litep2p {a!r}, libp2p-identity {b!r}", i)
+                elif blob[:4] == bytes([8, 1, 0x12, 0x20]) and len(blob) == 36 and b is not None and b.startswith("ok "):
+                    v("key-refused", f"canonical ed25519 key blob refused: {a!r}", i)
+            elif t[0] == "edverify":
+                sig = arg_bytes(t, 3)
+                if a != b:
+                    v("verify-reference", f"litep2p {a!r}, libp2p-identity {b!r}", i)
+                if len(sig) != 64 and a == "true":
+                    v("verify-malformed", f"a {len(sig)}-byte signature verified", i)
+                if a not in ("true", "false", "err badkey"):
+                    v("error-class", f"edverify answered {a!r}", i)
+            elif t[0] == "edsign":
+                if a != b:
+                    v("sign-reference", f"litep2p {a!r}, libp2p-identity {b!r}", i)
+                if a.startswith("ok ") and (len(a.split()[1]) != 128 or not a.endswith(" v=1")):
+                    v("sign-verify", f"signature does not verify / has the wrong size: {a!r}", i)
+                if a.startswith("ok ") != (len(arg_bytes(t)) == 32):
+                    v("key-length", f"secret key of {len(arg_bytes(t))} bytes: {a!r}", i)
+            elif t[0] == "conv":
+                if a.startswith("err inconsistent"):
+                    v("conversion", "TryFrom<Vec<u8>> / TryFrom<Multihash> / From<PeerId> disagree with from_bytes", i)
+                else:
+                    check_parse(i, arg_bytes(t), a, b)
             elif t[0] in ("fromstr", "deser") :
                 hr = t[0] == "fromstr" or t[1] == "hr"
                 raw = arg_bytes(t, 1 if t[0] == "fromstr" else 2)
